@@ -94,7 +94,7 @@ func specEditCorpus(quick bool, extraNames bool, depth2 bool) []specEdit {
 		out = append(out, specEdit{n, "unedited", seeds[n]})
 		for _, e := range singleEdits(n, seeds[n], extraNames) {
 			if n == "ids" {
-				if !underSpecialName(e.Desc) || (quick && (strings.HasPrefix(e.Desc, "rename ") || strings.HasPrefix(e.Desc, "transplant ") || strings.HasPrefix(e.Desc, "wrap "))) {
+				if !underSpecialName(e.Desc) || (quick && (strings.HasPrefix(e.Desc, "rename ") || strings.HasPrefix(e.Desc, "transplant ") || strings.HasPrefix(e.Desc, "wrap ") || strings.HasSuffix(e.Desc, " to array") || strings.HasSuffix(e.Desc, " to object") || strings.HasSuffix(e.Desc, " to bool"))) {
 					continue // this seed is about what lies below the special names only
 				}
 			} else if quick && n != "minimal" && !quickEdit(e.Desc) {
